@@ -54,25 +54,7 @@ def term(x):
     return S.rat(x)
 
 
-def _ensure(val, dtype=None, ndim=None, name="", length=None, can_be_none=False, shape=None, warn_on_cast=True, add_newaxis_on_deficient_ndim=False):
-    """ensure_type for symbolic arrays: shape discipline only (the float32 cast is the storage precision, outside the claim)"""
-    if val is None:
-        if can_be_none:
-            return None
-        raise TypeError(name + " must not be None")
-    if not S.has_sym(val):
-        from mdtraj.utils.validation import ensure_type
-        return ensure_type(val, dtype, ndim, name, length=length, can_be_none=can_be_none, shape=shape, warn_on_cast=warn_on_cast, add_newaxis_on_deficient_ndim=add_newaxis_on_deficient_ndim)
-    a = np.asarray(val, dtype=object).view(SA)
-    if add_newaxis_on_deficient_ndim and a.ndim == ndim - 1:
-        a = a[None]
-    if a.ndim != ndim:
-        raise ValueError(f"{name} must be {ndim}-dimensional")
-    if shape is not None:
-        for got, want in zip(a.shape, shape):
-            if want is not None and got != want:
-                raise ValueError(f"{name} has shape {a.shape}, expected {shape}")
-    return a
+_ensure = S.ensure_type_sym
 
 
 class _Text(io.StringIO):
